@@ -43,7 +43,6 @@ import (
 	"errors"
 	"fmt"
 	"math/big"
-	"os"
 	"sort"
 	"strconv"
 	"strings"
@@ -1000,7 +999,7 @@ var observedOnly = map[string]bool{"dropped": true, "moved.before_award": true, 
 // ---------------------------------------------------------------------------
 // enumeration
 
-func timerCases(tier core.Tier) []TCase {
+func timerCases(tier core.Tier) (cases []TCase, bounds string) {
 	acts := tActions[:5]
 	var layouts []tLayout
 	s := int64(timerS)
@@ -1027,16 +1026,21 @@ func timerCases(tier core.Tier) []TCase {
 	if tier == core.Thorough {
 		mutPool = "from_pool_block"
 	}
-	if os.Getenv("C13_DEV_NOMUT") != "" {
-		mutAll, mutPool = "", ""
-	}
 	mutOf := func(k int) string {
 		if k == 0 {
 			return mutPool
 		}
 		return ""
 	}
-	var cases []TCase
+	var an, ln []string
+	for _, a := range acts {
+		an = append(an, fmt.Sprintf("%s=%q", a.Name, a.Prog))
+	}
+	for _, l := range layouts {
+		ln = append(ln, fmt.Sprintf("(%d,%d,%d)", l.Stop1, l.Trig1, l.Stop2))
+	}
+	bounds = fmt.Sprintf("%d trigger actions of p1 [%s] x %d height layouts (vote check of p1, trigger of p1, vote check of the never-voted p2 or 0 = no p2) %v with set-up tip S=%d and producer heights S+1..S+%d",
+		len(acts), strings.Join(an, ", "), len(layouts), ln, timerS, timerSteps)
 	for _, a := range acts {
 		for _, l := range layouts {
 			img := imageName(a, l)
@@ -1083,7 +1087,7 @@ func timerCases(tier core.Tier) []TCase {
 			}
 		}
 	}
-	return cases
+	return cases, bounds
 }
 
 func tRank(c TCase) string {
@@ -1146,7 +1150,7 @@ func (c *tCollector) flush(rep *core.Report) {
 
 // runTimerFamily enumerates the timer dimension and reports its coverage.
 func runTimerFamily(rep *core.Report, tier core.Tier) (stopped bool) {
-	cases := timerCases(tier)
+	cases, bounds := timerCases(tier)
 	col := &tCollector{m: map[string]*tFound{}}
 	var mu sync.Mutex
 	cnt := map[string]int{}
@@ -1230,10 +1234,15 @@ func runTimerFamily(rep *core.Report, tier core.Tier) (stopped bool) {
 	sort.Strings(obs)
 	rep.Set("timer_mutants_observed_not_judged", fmt.Sprintf("%v: verdicts recorded only (the property speaks about assembled blocks, it does not oblige a verifier to refuse a block without a due timer transaction or with it at another position); every other kind must be refused: %d judged, %d refused, %d accepted",
 		obs, cnt["mutants_judged"], cnt["mutants_judged_refused"], cnt["mutants_judged_accepted"]))
-	rep.Set("timer_rule", fmt.Sprintf("timer dimension: images = trigger action of p1 (%d programs) x (vote-check height, trigger height) of p1 in {(S+1,S+2),(S+1,S+3),(S+2,S+3)} x vote-check height of the never-voted p2 (absent / the heights of the tier), S=%d; "+
-		"x %d pool families (0..3 transactions pre-executed on the producer in every submission order) x producer step 1..%d before which the pool arrives x every iteration order of the 3 rewritten pool map ranges (3-tx pools: identity and reverse at all sites together in quick and in the images with p2); "+
-		"%d real Miner.mining steps per case, every block replayed on a replica; mutants of every block judged once per (image, family, submission order, arrival step) under the default iteration order",
-		len(tActions), timerS, len(timerFamilies), timerSteps, timerSteps))
+	rep.Set("timer_rule", "timer dimension: images = "+bounds+fmt.Sprintf("; x %d pool families (0..3 transactions, pre-executed on the producer's current state in every submission order: independent transfer, reader / writer of k1, writer of k2, reader of the keys only the trigger writes, vote for p1, governance-token transfer by p1's voter, pairs and a triple of them) "+
+		"x producer step 1..%d before which the pool arrives x every iteration order of the 3 rewritten pool map ranges (3-tx pools: identity and reverse at all sites together in quick and in the images with p2); "+
+		"%d real Miner.mining steps per case, every block replayed after a wire round trip on a replica that never saw the transactions; a case is non-trivial when at least one of its blocks carries a timer transaction (all are: every image has two or three due heights); "+
+		"mutants of the honest blocks judged once per (image, family, submission order, arrival step) under the default iteration order: in the empty-pool case every block, else the block that carries the pool (thorough: and the later ones)",
+		len(timerFamilies), timerSteps, timerSteps))
+	rep.Set("timer_vacuity_guards", fmt.Sprintf("blocks produced %d: %d carried a timer transaction (%d of them together with pool transactions, %d sharing a key with the pool), %d carried none; replica regeneration accepted %d timer transactions; vote check of p1 passed %d times, trigger of p1 ran %d times with success and %d times with failure, vote check of p2 rejected it %d times; mutants that must be refused: %d judged, %d refused; honest block through the mutant pipeline accepted %d times",
+		cnt["blocks_produced"], cnt["blocks_with_timer_tx"], cnt["blocks_with_timer_tx_and_pool_txs"], cnt["blocks_where_timer_tx_and_pool_share_a_key"], cnt["blocks_without_timer_tx"],
+		cnt["timer_txs_accepted_by_replica_regeneration"], cnt["vote_check_of_p1_ran:passed"], cnt["trigger_of_p1_ran:completed_success"], cnt["trigger_of_p1_ran:completed_failure"], cnt["vote_check_of_p2_ran:rejected"],
+		cnt["mutants_judged"], cnt["mutants_judged_refused"], cnt["mutant_pipeline_guard_honest_block_accepted"]))
 	return stopped
 }
 
